@@ -256,6 +256,23 @@ def readScalarBin (e : Endian) (k : Kind) (bs : Bytes) : Except PErr (Scalar × 
   else if bs.length < k.size then .error .unexpectedEOF
   else .ok (⟨k, getUint e (bs.take k.size)⟩, bs.drop k.size)
 
+/-- The same function without measuring the whole remaining input (`bs.length` walks the list, which
+made long list properties quadratic in the native driver).  Proved equal; compiled code uses this one,
+theorems are stated about `readScalarBin`. -/
+def readScalarBinFast (e : Endian) (k : Kind) (bs : Bytes) : Except PErr (Scalar × Bytes) :=
+  if bs.isEmpty then .error .eof
+  else if (bs.take k.size).length < k.size then .error .unexpectedEOF
+  else .ok (⟨k, getUint e (bs.take k.size)⟩, bs.drop k.size)
+
+@[csimp] theorem readScalarBin_eq_fast : @readScalarBin = @readScalarBinFast := by
+  funext e k bs
+  unfold readScalarBin readScalarBinFast
+  have h : ((bs.take k.size).length < k.size) = (bs.length < k.size) := by
+    rw [List.length_take]
+    apply propext
+    omega
+  simp only [h]
+
 /-- `n` binary scalars of one kind (the element loop of a list property) -/
 def readScalarsBin (e : Endian) (k : Kind) : Nat → Bytes → Except PErr (List Scalar × Bytes)
   | 0, bs => .ok ([], bs)
